@@ -48,13 +48,17 @@ def renumber(fn):
     stack = [fn]
     while stack:
         n = stack.pop()
-        n._ord = k
-        k += 1
+        if not isinstance(n, _SHARED):      # Load()/Store()/Add()... are singletons shared by the whole tree
+            n._ord = k
+            k += 1
         stack.extend(reversed(list(ast.iter_child_nodes(n))))
 
 
+_SHARED = (ast.expr_context, ast.operator, ast.unaryop, ast.cmpop, ast.boolop)
+
+
 def _last_ord(node):
-    return max(getattr(x, "_ord", -1) for x in ast.walk(node))
+    return max(getattr(x, "_ord", -1) for x in ast.walk(node) if not isinstance(x, _SHARED))
 
 
 def is_pure(e, depth=0):
